@@ -137,6 +137,122 @@ theorem encodeUtf16_bmp_no_high (rs : List Nat) (h : ∀ r ∈ rs, r < 0x10000) 
         exact hsr
     · exact ih ht u hu
 
+/-! ## Rows through one node -/
+
+theorem Row.ext' (x y : Row) (h1 : x.text = y.text) (h2 : x.pat = y.pat) (h3 : x.flags = y.flags)
+    (h4 : x.rep = y.rep) (h5 : x.ints = y.ints) : x = y := by
+  cases x; cases y; simp_all
+
+/-- Under a sound discipline `compile` leaves the regex of the row's own pattern and flags,
+provided a cached regex (constant pattern and flags) is the one of this row. -/
+theorem pickKey_sound (d : Discipline) (hd : d.Sound) (cR : Bool) (c : Option Key) (rk : Key)
+    (h : cR = true → c = some rk) : pickKey d cR c rk = rk := by
+  unfold pickKey
+  cases cR with
+  | true => simp [h rfl]
+  | false =>
+    simp only [Bool.false_eq_true, if_false]
+    cases c with
+    | none => rfl
+    | some k0 =>
+      simp only
+      by_cases hk : d k0 rk = true
+      · simp [hd k0 rk hk]
+      · simp [hk]
+
+/-- What is known of a node between two rows, relative to the rows still to come. -/
+structure NodeInv (W : World) (fn : Fn) (md : Modes) (rows : List Row) (n : Node) : Prop where
+  flags : n.once = true → n.cacheRegex = md.cacheRegex ∧ n.cacheVal = md.cacheVal
+  regex : n.once = true → md.cacheRegex = true → ∀ r ∈ rows, n.compiled = some r.key
+  value : ∀ v, n.cachedVal = some v → ∀ r ∈ rows, evalFresh W fn r = v
+
+theorem NodeInv.tail {W : World} {fn : Fn} {md : Modes} {r : Row} {rs : List Row} {n : Node}
+    (h : NodeInv W fn md (r :: rs) n) : NodeInv W fn md rs n :=
+  ⟨h.flags, fun a b x hx => h.regex a b x (List.mem_cons_of_mem _ hx),
+   fun v hv x hx => h.value v hv x (List.mem_cons_of_mem _ hx)⟩
+
+theorem step_independent (d : Discipline) (hd : d.Sound) (W : World) (fn : Fn) (md : Modes)
+    (n : Node) (r : Row) (rs : List Row) (inv : NodeInv W fn md (r :: rs) n)
+    (hk : md.cacheRegex = true → ∀ x ∈ r :: rs, x.key = r.key)
+    (hv : md.cacheVal = true → ∀ x ∈ r :: rs, x = r) :
+    (step d W fn md n r).2 = evalFresh W fn r ∧ NodeInv W fn md rs (step d W fn md n r).1 := by
+  unfold step
+  cases hc : n.cachedVal with
+  | some v =>
+    simp only
+    exact ⟨(inv.value v hc r (List.mem_cons_self)).symm, inv.tail⟩
+  | none =>
+    simp only
+    -- the node after the once-block
+    have h1 : (onceBlock md n r.key).cacheRegex = md.cacheRegex ∧ (onceBlock md n r.key).cacheVal = md.cacheVal ∧
+        (md.cacheRegex = true → (onceBlock md n r.key).compiled = some r.key) := by
+      unfold onceBlock
+      by_cases ho : n.once = true
+      · simp only [ho, if_true]
+        exact ⟨(inv.flags ho).1, (inv.flags ho).2, fun hm => inv.regex ho hm r List.mem_cons_self⟩
+      · simp only [ho]
+        exact ⟨rfl, rfl, fun hm => by simp [hm]⟩
+    have ho1 : (onceBlock md n r.key).once = true := by
+      unfold onceBlock
+      by_cases ho : n.once = true <;> simp [ho]
+    generalize onceBlock md n r.key = n1 at h1 ho1 ⊢
+    have hkey : pickKey d n1.cacheRegex n1.compiled r.key = r.key :=
+      pickKey_sound d hd _ _ _ (fun hcr => h1.2.2 (by rw [← h1.1]; exact hcr))
+    rw [hkey]
+    refine ⟨rfl, ⟨fun _ => ⟨h1.1, h1.2.1⟩, ?_, ?_⟩⟩
+    · intro _ hm x hx
+      simp only
+      rw [hk hm x (List.mem_cons_of_mem _ hx)]
+    · intro v hcv x hx
+      simp only at hcv
+      by_cases hcond : (n1.cacheVal && cachesResult fn && (evalCompiled W fn r.key r).isValue) = true
+      · rw [if_pos hcond] at hcv
+        have hmv : md.cacheVal = true := by
+          rw [← h1.2.1]
+          simp only [Bool.and_eq_true] at hcond
+          exact hcond.1.1
+        have := hv hmv x (List.mem_cons_of_mem _ hx)
+        subst this
+        simpa [evalFresh] using hcv
+      · rw [if_neg hcond] at hcv
+        cases hcv
+
+theorem runRows_independent (d : Discipline) (hd : d.Sound) (W : World) (fn : Fn) (md : Modes)
+    (rows : List Row) (n : Node) (inv : NodeInv W fn md rows n)
+    (hk : md.cacheRegex = true → ∀ x ∈ rows, ∀ y ∈ rows, x.key = y.key)
+    (hv : md.cacheVal = true → ∀ x ∈ rows, ∀ y ∈ rows, x = y) :
+    runRows d W fn md n rows = rows.map (evalFresh W fn) := by
+  induction rows generalizing n with
+  | nil => rfl
+  | cons r rs ih =>
+    have hs := step_independent d hd W fn md n r rs inv
+      (fun hm x hx => hk hm x hx r List.mem_cons_self) (fun hm x hx => hv hm x hx r List.mem_cons_self)
+    simp only [runRows, List.map_cons]
+    rw [hs.1, ih _ hs.2 (fun hm x hx y hy => hk hm x (List.mem_cons_of_mem _ hx) y (List.mem_cons_of_mem _ hy))
+      (fun hm x hx y hy => hv hm x (List.mem_cons_of_mem _ hx) y (List.mem_cons_of_mem _ hy))]
+
+theorem NodeInv.fresh (W : World) (fn : Fn) (md : Modes) (rows : List Row) : NodeInv W fn md rows Node.fresh :=
+  ⟨fun h => by simp [Node.fresh] at h, fun h => by simp [Node.fresh] at h, fun v h => by simp [Node.fresh] at h⟩
+
+theorem Respects.keys {md : Modes} {rows : List Row} (h : Respects md rows) (hm : md.cacheRegex = true) :
+    ∀ x ∈ rows, ∀ y ∈ rows, x.key = y.key := by
+  simp only [Modes.cacheRegex, Bool.and_eq_true] at hm
+  intro x hx y hy
+  simp only [Row.key]
+  rw [h.2.1 hm.1 x hx y hy, h.2.2.1 hm.2 x hx y hy]
+
+theorem Respects.rows {md : Modes} {rows : List Row} (h : Respects md rows) (hm : md.cacheVal = true) :
+    ∀ x ∈ rows, ∀ y ∈ rows, x = y := by
+  simp only [Modes.cacheVal, Modes.cacheRegex, Bool.and_eq_true] at hm
+  intro x hx y hy
+  exact Row.ext' x y (h.1 hm.1.2 x hx y hy) (h.2.1 hm.1.1.1 x hx y hy) (h.2.2.1 hm.1.1.2 x hx y hy)
+    (h.2.2.2 hm.2 x hx y hy).1 (h.2.2.2 hm.2 x hx y hy).2
+
+theorem Respects.sub {md : Modes} {rows rows' : List Row} (h : Respects md rows) (hs : ∀ x ∈ rows', x ∈ rows) :
+    Respects md rows' :=
+  ⟨fun c x hx y hy => h.1 c x (hs x hx) y (hs y hy), fun c x hx y hy => h.2.1 c x (hs x hx) y (hs y hy),
+   fun c x hx y hy => h.2.2.1 c x (hs x hx) y (hs y hy), fun c x hx y hy => h.2.2.2 c x (hs x hx) y (hs y hy)⟩
+
 end Gms.RegexFn
 
 namespace Gms.C33
@@ -465,6 +581,92 @@ theorem finding_pos_splits_surrogate_pair :
 /-- Outside the regions the Spec is the Impl model. -/
 theorem spec_eq_impl_outside_regions (c : Call) (h : region c = none) : spec c = evalCall c := by
   unfold spec; rw [h]
+
+/-! ## One node, many rows: a row's result does not depend on the rows evaluated before it -/
+
+theorem perRow_sound : Discipline.perRow.Sound := by
+  intro o n h; simp [Discipline.perRow] at h
+
+theorem keyed_sound : Discipline.keyed.Sound := by
+  intro o n h; simpa [Discipline.keyed] using h
+
+/-- **Row independence.** Whatever regexes the earlier rows left in the node, under a sound caching
+discipline (the regex is kept only if pattern *and* flags are unchanged) every row of a statement
+gets the result it would get on a node of its own — for every matcher world, every function, every
+combination of constant / per-row arguments, every sequence of rows. -/
+theorem rows_independent (d : Discipline) (hd : d.Sound) (W : World) (fn : Fn) (md : Modes) (rows : List Row)
+    (h : Respects md rows) :
+    runRows d W fn md Node.fresh rows = rows.map (evalFresh W fn) :=
+  runRows_independent d hd W fn md rows Node.fresh (NodeInv.fresh W fn md rows) h.keys h.rows
+
+/-- The code's discipline (re-compile on every row unless pattern and flags are constants). -/
+theorem code_rows_independent (W : World) (fn : Fn) (md : Modes) (rows : List Row) (h : Respects md rows) :
+    runRows .perRow W fn md Node.fresh rows = rows.map (evalFresh W fn) :=
+  rows_independent _ perRow_sound W fn md rows h
+
+/-- "Re-compile iff pattern or flags changed" is observationally the code's discipline. -/
+theorem keyed_eq_perRow (W : World) (fn : Fn) (md : Modes) (rows : List Row) (h : Respects md rows) :
+    runRows .keyed W fn md Node.fresh rows = runRows .perRow W fn md Node.fresh rows := by
+  rw [rows_independent _ keyed_sound W fn md rows h, code_rows_independent W fn md rows h]
+
+/-- Descending instead of ascending order: the same results, reversed. -/
+theorem rows_descending (d : Discipline) (hd : d.Sound) (W : World) (fn : Fn) (md : Modes) (rows : List Row)
+    (h : Respects md rows) :
+    runRows d W fn md Node.fresh rows.reverse = (runRows d W fn md Node.fresh rows).reverse := by
+  rw [rows_independent d hd W fn md rows h,
+    rows_independent d hd W fn md rows.reverse (h.sub fun _ hx => List.mem_reverse.mp hx), List.map_reverse]
+
+/-- A filter in front of the node (WHERE id <= k AND REGEXP_LIKE(…)): the surviving rows get the
+results they get without the filter. -/
+theorem rows_filtered (d : Discipline) (hd : d.Sound) (W : World) (fn : Fn) (md : Modes) (rows : List Row)
+    (p : Row → Bool) (h : Respects md rows) :
+    runRows d W fn md Node.fresh (rows.filter p) = (rows.filter p).map (evalFresh W fn) :=
+  rows_independent d hd W fn md _ (h.sub fun x hx => (List.mem_filter.mp hx).1)
+
+/-- Non-vacuity: a two-row statement with per-row pattern and flags and a constant position. -/
+example : Respects ⟨false, false, false, true⟩
+    [⟨.ok [66] 1, (.ok, 0), (.ok, 0), .null, [.int 1]⟩, ⟨.ok [98] 1, (.ok, 0), (.ok, 1), .null, [.int 1]⟩] := by
+  decide
+
+/-- The two-row world of the witnesses: pattern `b` on the subject `B`; flags value 0 is `'i'`
+(one match), flags value 1 is `'c'` (none); pattern value 1 (`x`) never matches. -/
+def witnessWorld : World := fun k _ => if k.1.2 = 0 ∧ k.2.2 = 0 then fun i => if i = 0 then [(0, 1)] else [] else fun _ => []
+
+/-- Keyed on the pattern alone the second row is answered with the first row's flags:
+`REGEXP_LIKE('B','b','i')`, then `REGEXP_LIKE('B','b','c')` → 1, 1 instead of 1, 0. -/
+theorem patternOnly_not_independent :
+    ∃ (W : World) (md : Modes) (rows : List Row), Respects md rows ∧
+      runRows .patternOnly W .like md Node.fresh rows ≠ rows.map (evalFresh W .like) :=
+  ⟨witnessWorld, ⟨false, false, false, true⟩,
+   [⟨.ok [66] 1, (.ok, 0), (.ok, 0), .null, []⟩, ⟨.ok [66] 1, (.ok, 0), (.ok, 1), .null, []⟩], by decide, by decide⟩
+
+/-- Keyed on the flags alone the second row is answered with the first row's pattern. -/
+theorem flagsOnly_not_independent :
+    ∃ (W : World) (md : Modes) (rows : List Row), Respects md rows ∧
+      runRows .flagsOnly W .instr md Node.fresh rows ≠ rows.map (evalFresh W .instr) :=
+  ⟨witnessWorld, ⟨false, false, false, true⟩,
+   [⟨.ok [66] 1, (.ok, 0), (.ok, 0), .null, []⟩, ⟨.ok [66] 1, (.ok, 1), (.ok, 0), .null, []⟩], by decide, by decide⟩
+
+/-- A stale compile outcome also hides NULL / error classes: with the pattern-only key a NULL
+match_type after a usable one is answered with a value. -/
+theorem patternOnly_hides_null_flags :
+    runRows .patternOnly witnessWorld .like ⟨false, false, false, true⟩ Node.fresh
+      [⟨.ok [66] 1, (.ok, 0), (.ok, 0), .null, []⟩, ⟨.ok [66] 1, (.ok, 0), (.null, 2), .null, []⟩] = [.int 1, .int 1] ∧
+    evalFresh witnessWorld .like ⟨.ok [66] 1, (.ok, 0), (.null, 2), .null, []⟩ = .null := by decide
+
+theorem evalFresh_eq_call (W : World) (fn : Fn) (r : Row) : evalFresh W fn r = evalCall (r.call W fn) := rfl
+
+/-- Outside the defect regions of single calls the Spec of a statement is what the code computes
+through one node. -/
+theorem spec_rows_outside_regions (W : World) (fn : Fn) (md : Modes) (rows : List Row) (h : Respects md rows)
+    (hr : regionRows W fn rows = none) :
+    specRows W fn rows = runRows .perRow W fn md Node.fresh rows := by
+  rw [code_rows_independent W fn md rows h]
+  unfold specRows
+  apply List.map_congr_left
+  intro r hm
+  have := (List.findSome?_eq_none_iff.mp hr) r hm
+  rw [evalFresh_eq_call, spec_eq_impl_outside_regions _ this]
 
 /-! ## Regenerated facts -/
 
